@@ -412,7 +412,7 @@ impl FrameEncoder {
 //@@ fn file=fe2o3-amqp/src/frames/amqp.rs impl=`impl Encoder<Frame> for FrameEncoder` name=encode
 //@@ ret Result<(), FrameError>
 //@@ subst `use serde_amqp::ser::Serializer;` => `` rule=R6
-//@@ subst `.map_err(Into::into)` => `.map_err(|e: SerError| -> (o: FrameError) ensures o == FrameError::Ser(e) { ser_into_frame_error(e) })` rule=R17
+//@@ subst `.map_err(Into::into)` => `.map_err(|e: SerError| -> (o: FrameError) ensures o == FrameError::Ser(e) { ser_into_frame_error(e) })` rule=R17 unless `\.map_err\(`
 //@@ spec
     ensures
         r is Ok ==> final(dst)@ == old(dst)@ + frame_octets(old(self).max_frame_body_size as int, item),      // [C06.frame.layout] every frame handed to the codec is the 4 header octets that follow the size (doff = 2, type = AMQP, the frame's channel big-endian) followed by exactly the encoding of ITS performative -- an empty frame (heartbeat) is the header alone, a transfer is the frame sequence of [C06.split.exact] -- appended after whatever the buffer already held
